@@ -171,3 +171,63 @@ SUBS = [
         budget=dict(quick=4000, thorough=80000), floor=dict(quick=200, thorough=4000),
         nontrivial_rule="at least one yielded schedule differs from the input schedule and the box has > 1 point"),
 ]
+
+
+# ---------------------------------------------------------------------------------------------------------------
+# 3. AutoflowScheduler on IR: dart.operation vs dart.schedule (generator shared with C02)
+
+def prop_autoflow(r):
+    import props.C02 as C02
+    from vlib.ctx import PassTimeout, parse, run_pass, shared_ctx, time_limit
+
+    text = C02.build(r)
+    mod = parse(text, shared_ctx())
+    mod.verify()
+    ops = [o for o in mod.walk() if o.name == "dart.operation"]
+    assert len(ops) == 1
+    op = ops[0]
+    # iteration bounds from the recipe (independent of the dialect's own bound inference)
+    if r["kind"] == "alu":
+        ob = list(r["shape"])
+    elif r["kind"] in ("matmul", "gemm"):
+        ob = [r["M"], r["N"], r["K"]]
+    else:
+        ob = [r["Nn"], r["F"], r["OY"], r["OX"], r["C"], r["FY"], r["FX"]]
+    mats = [C02.affine_matrix(p.data) for p in op.patterns.data]
+    before = G.iteration_multiset(ob, mats)
+    acc_name = "snax_alu" if r["kind"] == "alu" else "snax_gemmx"
+    try:
+        with time_limit(20):
+            run_pass(mod, "insert-accfg-op", accelerator=acc_name)
+            run_pass(mod, "dart-scheduler")
+    except PassTimeout:
+        raise Reject("scheduler did not terminate within 20 s")
+    except StopIteration:
+        raise Reject("scheduler found no schedule")
+    except (NotImplementedError, RuntimeError, AssertionError) as e:
+        raise Reject(f"scheduler refused: {type(e).__name__}")
+    except Exception as e:
+        raise Violation(f"autoflow:raises:{type(e).__name__}", dict(error=repr(e), module=text))
+    scheds = [o for o in mod.walk() if o.name == "dart.schedule"]
+    if len(scheds) != 1:
+        raise Reject("operation left unscheduled")
+    s = scheds[0]
+    sb = [b.value.data for b in s.bounds.data]
+    smats = [C02.affine_matrix(p.data) for p in s.patterns.data]
+    after = G.iteration_multiset(sb, smats)
+    if not G.same_multiset(before, after):
+        raise Violation("autoflow:iteration-multiset-differs", dict(op_bounds=ob, schedule_bounds=sb, module=text))
+    npts = int(np.prod(ob))
+    changed = sb != ob or any(not (a[0] == b[0]).all() for a, b in zip(mats, smats) if a[0].shape == b[0].shape) or len(sb) != len(ob)
+    return Info(nontrivial=bool(changed and npts > 1), classes=("kind:" + r["kind"], "tiled" if len(sb) > len(ob) else "untiled"))
+
+
+def _autoflow_strategy(tier):
+    import props.C02 as C02
+
+    return C02.recipe(tier).filter(lambda r: True)
+
+
+SUBS.append(
+    Sub("autoflow_ir", _autoflow_strategy, prop_autoflow, budget=dict(quick=600, thorough=10000), floor=dict(quick=60, thorough=1000),
+        nontrivial_rule="the dart.schedule differs from the dart.operation (tiling/rotation) and the iteration box has > 1 point"))
